@@ -141,3 +141,45 @@ Theorem position_index_code_refines_model :
       (0 < dict_val cands (Z.of_nat c) <-> exists v, pos_cand p (nth c ordered []) Y = Some v /\ 0 < v).
 Proof. exact position_candidate_positive. Qed.
 Print Assumptions position_index_code_refines_model.
+
+(* ==== the RELATIONAL property stated directly about the code: two (or three) calls of the functions
+   regenerated from the Python source on this run, related through the key-level views of the frames they
+   return (code_view); obtained by transferring the laws proved from the single-call specs (Laws*.v) along
+   `generated code refines api_join` *)
+From SSJ Require Import CodeLevelBase CodeLevelJoins CodeLevelJoins2 CodeLevelFilters CodeLevelMatcher CodeLevelTight CodeLevelRelBase CodeLevelRelCalls CodeLevelRel CodeLevelRel2 CodeLevelRel3 CodeLevelRel4 CodeLevelRel5 CodeLevelRel6.
+Theorem C13_code_transpose_JCD :
+  ltac:(let t := type of C13_code_transpose_jcd in exact t).
+Proof. exact C13_code_transpose_jcd. Qed.
+Print Assumptions C13_code_transpose_JCD.
+Theorem C13_code_transpose_OVC :
+  ltac:(let t := type of C13_code_transpose_overlap_coefficient in exact t).
+Proof. exact C13_code_transpose_overlap_coefficient. Qed.
+Print Assumptions C13_code_transpose_OVC.
+Theorem C13_code_transpose_OVERLAP :
+  ltac:(let t := type of C13_code_transpose_overlap_join in exact t).
+Proof. exact C13_code_transpose_overlap_join. Qed.
+Print Assumptions C13_code_transpose_OVERLAP.
+Theorem C13_code_refine_JCD :
+  ltac:(let t := type of C13_code_refine_jcd in exact t).
+Proof. exact C13_code_refine_jcd. Qed.
+Print Assumptions C13_code_refine_JCD.
+Theorem C13_code_refine_OVC :
+  ltac:(let t := type of C13_code_refine_overlap_coefficient in exact t).
+Proof. exact C13_code_refine_overlap_coefficient. Qed.
+Print Assumptions C13_code_refine_OVC.
+Theorem C13_code_refine_OVERLAP :
+  ltac:(let t := type of C13_code_refine_overlap_join in exact t).
+Proof. exact C13_code_refine_overlap_join. Qed.
+Print Assumptions C13_code_refine_OVERLAP.
+Theorem C13_code_partition_JCD :
+  ltac:(let t := type of C13_code_partition_jcd in exact t).
+Proof. exact C13_code_partition_jcd. Qed.
+Print Assumptions C13_code_partition_JCD.
+Theorem C13_code_partition_OVC :
+  ltac:(let t := type of C13_code_partition_overlap_coefficient in exact t).
+Proof. exact C13_code_partition_overlap_coefficient. Qed.
+Print Assumptions C13_code_partition_OVC.
+Theorem C13_code_partition_OVERLAP :
+  ltac:(let t := type of C13_code_partition_overlap_join in exact t).
+Proof. exact C13_code_partition_overlap_join. Qed.
+Print Assumptions C13_code_partition_OVERLAP.
